@@ -488,6 +488,14 @@ def observe(case):
             keep = Vector(vals) if case["shared"] else None        # a second live owner of the same tuple
             fp0 = v.fingerprint() if case["prime"] else None
             key, value = _mk_key(case["key"]), _mk_value(case["value"])
+            if isinstance(key, list):
+                # the program keeps its index list and used it before, on a LONGER vector: an assignment reads its key, it does
+                # not rewrite it (negative positions count from the end of the vector being written, every time)
+                try:
+                    twin = Vector(vals + vals[:1] * 2 + vals)
+                    twin[key] = _mk_value(case["value"])
+                except Exception:                            # noqa: BLE001
+                    pass
             before = _state(v)
             conv = _conv_table(case["vals"])
             exc = None
